@@ -9,7 +9,7 @@ package app
 //@ props C09 C19 C20 C14
 //@ at entry: ghost runCalls = runCalls + 1
 //@ requires a.Options != nil && runner != nil && TasksInv(spokfile) && I01(cp(spokfile)) && spokfile.Globs != nil && GlobsCurrent(spokfile)
-//@ modifies fexists, fdata, last, ranCount, dagV, dagE, dagItem, dagN, qpos, lastGraph, runPhase, mapOf(spokfile.Globs), lastResults, fswrites, runCalls, stdoutDocs, lastForce
+//@ modifies fexists, fdata, last, ranCount, dagV, dagE, dagItem, dagN, qpos, lastGraph, runPhase, mapOf(spokfile.Globs), lastResults, fswrites, runCalls, stdoutDocs, lastForce, fsid, dgSeq, fsSeq
 //@ ensures runCalls == old(runCalls) + 1
 //@ ensures [C14,force-flag-reaches-the-run] lastForce == a.Options.Force
 //@ at call Println#0: ghost stdoutDocs = snoc(stdoutDocs, text)
@@ -69,9 +69,10 @@ package app
 //@ func (*App).handleClean
 //@ props C12 C19 C09 C14
 //@ requires a.Options != nil && runner != nil && TasksInv(spokfile) && I01(cp(spokfile)) && spokfile.Globs != nil && GlobsCurrent(spokfile)
-//@ modifies removed, fexists, fdata, last, ranCount, dagV, dagE, dagItem, dagN, qpos, lastGraph, runPhase, mapOf(spokfile.Globs), lastResults, fswrites, runCalls, stdoutDocs, lastForce
+//@ modifies removed, fexists, fdata, last, ranCount, dagV, dagE, dagItem, dagN, qpos, lastGraph, runPhase, mapOf(spokfile.Globs), lastResults, fswrites, runCalls, stdoutDocs, lastForce, fsid, dgSeq, fsSeq
 //@ ensures [C14,force-flag-reaches-the-run] runCalls != old(runCalls) ==> lastForce == a.Options.Force
 //@ ensures [C12,user-clean-task-runs-instead] dom(spokfile.Tasks, "clean") ==> removed == old(removed)
+//@ ensures [C03,at-most-one-run] runCalls <= old(runCalls) + 1
 //@ ensures [C12,only-designated-paths-removed] forall p string :: {removed[p]} removed[p] && !old(removed)[p] ==> Des(spokfile, p) && p != spokfile.Path && !ancOrSelf(p, spokfile.Dir)
 //@ ensures [C19,clean-removes-or-writes-the-cache] forall p string :: {fswrites[p]} fswrites[p] && !old(fswrites)[p] ==> removed[p] || ancOrSelf(join2(spokfile.Dir, ".spok"), p)
 //@ ensures [C09,failing-command-fails-action] result == nil && runCalls != old(runCalls) ==> tasksOk(lastResults, len(lastResults))
@@ -134,7 +135,7 @@ package app
 //@ func (*App).handleDefault
 //@ props C19 C20 C09 C14
 //@ requires a.Options != nil && runner != nil && TasksInv(spokfile) && I01(cp(spokfile)) && spokfile.Globs != nil && GlobsCurrent(spokfile)
-//@ modifies fexists, fdata, last, ranCount, dagV, dagE, dagItem, dagN, qpos, lastGraph, runPhase, mapOf(spokfile.Globs), lastResults, fswrites, runCalls, stdoutDocs, listed, lastForce
+//@ modifies fexists, fdata, last, ranCount, dagV, dagE, dagItem, dagN, qpos, lastGraph, runPhase, mapOf(spokfile.Globs), lastResults, fswrites, runCalls, stdoutDocs, listed, lastForce, fsid, dgSeq, fsSeq
 //@ ensures [C14,force-flag-reaches-the-run] runCalls != old(runCalls) ==> lastForce == a.Options.Force
 //@ ensures [C20,default-task-runs-when-defined] dom(spokfile.Tasks, "default") <==> runCalls == old(runCalls) + 1
 //@ ensures [C20,listing-otherwise] !dom(spokfile.Tasks, "default") ==> runCalls == old(runCalls) && fswrites == old(fswrites) && fdata == old(fdata) && fexists == old(fexists)
@@ -143,7 +144,7 @@ package app
 //@ ensures [C20,nothing-else-goes-to-the-process-stdout] (!a.Options.JSON || result != nil) ==> stdoutDocs == old(stdoutDocs)
 
 //@ func (*App).setup
-//@ props C19 C17
+//@ props C19 C17 C12
 //@ requires a.Options != nil
 //@ modifies a.logger, a.Options.Spokfile, foundDir, findReadErr
 //@ ensures result == nil ==> a.logger != nil
@@ -154,10 +155,10 @@ package app
 // Run: the action dispatch. loadedOK is set when the spokfile has been read, parsed and loaded.
 //@ pred projCache(a *App) := join2(dirOf(a.Options.Spokfile), ".spok")
 //@ func (*App).Run
-//@ props C19 C20 C09 C14
+//@ props C19 C20 C09 C14 C03 C12 C07
 //@ requires a.Options != nil
 //@ requires [history-invariant] forall c string :: {fexists[c]} I01(c)
-//@ modifies a.stream, a.logger, a.Options.Spokfile, foundDir, findReadErr, taskIdx, loadedOK, removed, fexists, fdata, last, ranCount, dagV, dagE, dagItem, dagN, qpos, lastGraph, runPhase, lastResults, fswrites, runCalls, stdoutDocs, listed, lastForce, strmLeft, strmDone, strmExp, strmLastT, strmInput
+//@ modifies a.stream, a.logger, a.Options.Spokfile, foundDir, findReadErr, taskIdx, loadedOK, removed, fexists, fdata, last, ranCount, dagV, dagE, dagItem, dagN, qpos, lastGraph, runPhase, lastResults, fswrites, runCalls, stdoutDocs, listed, lastForce, fsid, dgSeq, fsSeq, execRes, fmtText, tkDepEnd, tkOutEnd, nodeTok, nodeEnd, nodeDepEnd, nodeOutEnd, strmN, strmLeft, strmDone, strmExp, strmLastT, strmInput
 //@ at entry: ghost loadedOK = false
 //@ at return file.New#0: ghost loadedOK = (err == nil)
 //@ ensures [C19,init-writes-only-spokfile-and-gitignore] a.Options.Init ==> forall p string :: {fswrites[p]} fswrites[p] && !old(fswrites)[p] ==> p == initSpok() || p == initIgnore()
@@ -172,4 +173,7 @@ package app
 //@ ensures [C09,failing-command-fails-the-invocation] result == nil && runCalls != old(runCalls) ==> tasksOk(lastResults, len(lastResults))
 //@ ensures [C20,quiet-without-json-prints-nothing-to-the-process-stdout] !a.Options.JSON ==> stdoutDocs == old(stdoutDocs)
 //@ ensures [C20,json-report-only-after-a-run-without-failures] result != nil ==> stdoutDocs == old(stdoutDocs)
+//@ at call WriteFile#0: ghost fmtText = treeStr(tree.Nodes, len(tree.Nodes))
+//@ ensures [C07,fmt-leaves-exactly-the-printed-tree-in-the-spokfile] !a.Options.Init && a.Options.Fmt && result == nil ==> fexists[a.Options.Spokfile] && fdata[a.Options.Spokfile] == fmtText
+//@ ensures [C03,one-run-for-all-requested-tasks] runCalls <= old(runCalls) + 1
 //@ ensures [C20,tasks-run-only-for-run-actions] a.Options.Init || a.Options.Fmt || a.Options.Variables ==> runCalls == old(runCalls)
